@@ -39,6 +39,18 @@ type LoopC struct {
 	ExhaustiveTags []string
 }
 
+// WireC pins the XML mapping of a struct field that encoding/xml reads from a
+// struct tag: wire[P] <Type.Field | func:Name#k.Field> <kind> [name]
+// kind: attr chardata innerxml element any; name: "local" or "space local".
+type WireC struct {
+	Tags  []string
+	Ref   string
+	Kind  string
+	Name  string
+	File  string
+	Line  int
+}
+
 type CallsiteC struct {
 	Callee   string
 	Optional bool // no error when the function has no such call
@@ -147,13 +159,14 @@ type CFile struct {
 	Lemmas   []*LemmaC
 	Axioms   []*AxiomC
 	NoPanic  []string
+	Wires    []*WireC
 }
 
 var clauseRe = regexp.MustCompile(`^(requires|relies|ensures|defines|invariant|decreases|assert|assume|panics)(\[[A-Za-z0-9,]+\])?\s+(.*)$`)
 var specRe = regexp.MustCompile(`^spec\s+([A-Za-z_][A-Za-z0-9_]*)\s*\(([^)]*)\)\s*([^=]+?)\s*(=\s*(.*))?$`)
 var lemmaRe = regexp.MustCompile(`^lemma(\[[A-Za-z0-9,]+\])?\s+([A-Za-z_][A-Za-z0-9_]*)\s*\(([^)]*)\)\s*(induct\s+([A-Za-z_][A-Za-z0-9_]*))?\s*$`)
 
-var topKeywords = []string{"typeinv ", "assume-typeinv ", "spec ", "axiom ", "lemma ", "lemma[", "func ", "extern ", "funcfield ", "functype ", "nopanic "}
+var topKeywords = []string{"wire ", "wire[", "typeinv ", "assume-typeinv ", "spec ", "axiom ", "lemma ", "lemma[", "func ", "extern ", "funcfield ", "functype ", "nopanic "}
 var subKeywords = []string{"requires", "relies", "cancellable", "ensures", "defines", "invariant", "decreases", "assert", "assume", "panics", "modifies", "pure", "loop ", "callsite ", "noswallow", "ghost ", "abstracts ", "maypanic", "before:", "after:", "uses ", "ignore ", "pattern ", "preserves ", "nullable ", "havoc ", "hint ", "exhaustive"}
 
 func startsWithAny(s string, ks []string) bool {
@@ -266,6 +279,28 @@ func ParseContractFile(path string) (*CFile, error) {
 				sp.Text = body
 			}
 			cf.Specs = append(cf.Specs, sp)
+			curF, curL, curLoop, curCS = nil, nil, nil, nil
+		case strings.HasPrefix(t, "wire ") || strings.HasPrefix(t, "wire["):
+			rest := strings.TrimPrefix(t, "wire")
+			var tags []string
+			if strings.HasPrefix(rest, "[") {
+				i := strings.Index(rest, "]")
+				if i < 0 {
+					return nil, errf(l, "wire: missing ]")
+				}
+				tags = parseTags(rest[:i+1])
+				rest = rest[i+1:]
+			}
+			fs := strings.Fields(rest)
+			if len(fs) < 2 {
+				return nil, errf(l, "wire: expected <ref> <kind> [name]")
+			}
+			switch fs[1] {
+			case "attr", "chardata", "innerxml", "element", "any":
+			default:
+				return nil, errf(l, "wire: unknown kind %q", fs[1])
+			}
+			cf.Wires = append(cf.Wires, &WireC{Tags: tags, Ref: fs[0], Kind: fs[1], Name: strings.Join(fs[2:], " "), File: path, Line: l.no})
 			curF, curL, curLoop, curCS = nil, nil, nil, nil
 		case strings.HasPrefix(t, "typeinv "), strings.HasPrefix(t, "assume-typeinv "):
 			assumed := strings.HasPrefix(t, "assume-")
